@@ -133,6 +133,13 @@ def analyse(ctx, traces, ntraces, tag=""):
         ndrops = sum(e.get("n", 0) for e in row["ev"] if e["op"] == "Drops")
         if op == "Infra":
             raise vlib.Undecided("simulator could not start: %s" % ev)
+        if op == "Drops" or any(e["op"] == "Drops" and e.get("dialok") and e.get("latecancel", 0) > 0 for e in row["ev"]):
+            # (whatever failed first in such a schedule - a Flush or Read that reported EOF - is the consequence)
+            found.append(_cand("C13/dial/disconnect-after-successful-dial", "the dial's cancellation watcher sent a disconnect frame although the dial had "
+                               "succeeded and its context was cancelled only after DialContext had returned (library log: %d time(s)); schedule %s"
+                               % (sum(e.get("latecancel", 0) for e in row["ev"] if e["op"] == "Drops"), {k: v for k, v in sc.items() if k in ("kind", "port", "writes", "frames")}),
+                               {"scenario": sc, "events": row["ev"]}))
+            continue
         if op == "Reads":
             if ev["panic"]:
                 key = "C13/read/panic"
@@ -210,8 +217,9 @@ def run(ctx):
     # are busy with other schedules (and whatever else runs on the machine) is run again on its own, twice, nothing beside
     # it; what the code does wrong it does then too.  A failure that does not come back is left out of the verdict and
     # counted in the evidence file.  (The known finding is attributed by the library's own log, not by re-running.)
-    known = [c for c in found if c["key"] == "C13/loss/drop-when-full"]
-    cands = [c for c in found if c["key"] != "C13/loss/drop-when-full"]
+    LOGGED = ("C13/loss/drop-when-full", "C13/dial/disconnect-after-successful-dial")     # identified by the library's own log
+    known = [c for c in found if c["key"] in LOGGED]
+    cands = [c for c in found if c["key"] not in LOGGED]
     confirmed, unreproduced = [], []
     if cands:
         scens, seen = [], set()
@@ -231,15 +239,17 @@ def run(ctx):
                 raise vlib.Undecided("agwpe confirmation run failed: rc=%d %s" % (p2.returncode, p2.stderr[-2000:]))
             st2 = json.loads(p2.stdout.strip().splitlines()[-1])
             found2, _ = analyse(ctx, rt, st2["traces"], tag="rerun-")
-            known += [c for c in found2 if c["key"] == "C13/loss/drop-when-full"]
-            again = {json.dumps(c["scen"], sort_keys=True) for c in found2 if c["key"] != "C13/loss/drop-when-full"}
+            known += [c for c in found2 if c["key"] in LOGGED]
+            again = {json.dumps(c["scen"], sort_keys=True) for c in found2 if c["key"] not in LOGGED}
         for c in cands:
             k = json.dumps(c["scen"], sort_keys=True)
             if not c["scen"] or k in again or k not in seen:
                 confirmed.append(c)
             else:
                 unreproduced.append(c)
-    for c in known[:3] + confirmed:
+    seen_keys = set()
+    known = [c for c in known if not (c["key"] in seen_keys or seen_keys.add(c["key"]))]
+    for c in known + confirmed:
         vlib.report_violation(ctx, c["key"], c["what"], c["replay"])
     for c in unreproduced:
         msg = "NOT-REPRODUCED: %s failed once among the parallel schedules and not in two runs on its own: %s" % (c["key"], c["what"][:300])
